@@ -87,6 +87,26 @@ func loadModule(name, dir, goos, goarch string, minPkgs int) *Module {
 	}
 	if os.Getenv("VERIF_NOINLINE") == "" {
 		overlay := map[string][]byte{}
+		// locals that hide the name of a new type are renamed first (inline.go, unshadowRound)
+		if ch, notes := unshadowRound(pkgs, dir, overlay); ch {
+			cfg2 := *cfg
+			cfg2.Overlay = overlay
+			pkgs2, err := packages.Load(&cfg2, "./...")
+			okLoad := err == nil && len(pkgs2) == len(pkgs)
+			if okLoad {
+				packages.Visit(pkgs2, nil, func(p *packages.Package) {
+					if len(p.Errors) > 0 {
+						okLoad = false
+					}
+				})
+			}
+			if okLoad {
+				pkgs = pkgs2
+				fmt.Printf("normalisation (%s): locals that hide the name of a new type renamed: %v\n", name, notes)
+			} else {
+				overlay = map[string][]byte{}
+			}
+		}
 		for round := 1; round <= 4; round++ {
 			next := map[string][]byte{}
 			for k, v := range overlay {
